@@ -108,6 +108,10 @@ def run(ctx):
         else:
             ev = sorted(rng.uniform(-10, 10) for _ in range(3))
         R = rand_rotation(rng, rng.choice([0.0, math.pi / 2, math.pi]) if kind == "gimbal" else None)
+        if kind != "gimbal" and t % 4 == 3:
+            # the principal frame turned about ONE lab axis only (unique axes lying in the xz, yz or xy plane)
+            from scipy.spatial.transform import Rotation as _Rot
+            R = _Rot.from_euler(rng.choice(["x", "y", "z"]), rng.uniform(0, 2 * math.pi)).as_matrix()
         T = R @ np.diag(ev) @ R.T
         T = (T + T.T) / 2
         for order in ("i", "d", "h", "n"):
@@ -149,6 +153,32 @@ def run(ctx):
                         p = "after euler_angles the stored eigenvector frame is not right-handed (det %.3f)" % np.linalg.det(np.array(tens.eigenvectors))
                     if p:
                         ctx.fail_input("pipeline", case, p, classify)
+    # ---- histories on ONE tensor object: angles asked for, the order changed, angles asked for again (must be those of a fresh tensor of that order)
+    for t in range(40 if quick else 600):
+        ev = sorted(rng.uniform(-10, 10) for _ in range(3))
+        if min(ev[1] - ev[0], ev[2] - ev[1]) < 0.5:
+            continue
+        R = rand_rotation(rng)
+        T = R @ np.diag(ev) @ R.T
+        T = (T + T.T) / 2
+        o1, o2 = rng.sample(["i", "d", "h", "n"], 2)
+        conv, passive = rng.choice(["zyz", "zxz"]), rng.random() < 0.5
+        case = dict(kind="reorder-history", evals=[float(x) for x in ev], R=R.tolist(), order=o1, order2=o2, convention=conv, passive=passive, degenerate=1)
+        ctx.evaluations += 1
+        try:
+            tt = NMRTensor(T.copy(), order=o1)
+            tt.euler_angles(convention=conv, passive=passive)
+            tt.equivalent_euler_angles(convention=conv, passive=passive)
+            tt.order = o2
+            a2 = np.array(tt.euler_angles(convention=conv, passive=passive))
+            fresh = NMRTensor(T.copy(), order=o2)
+            evs2 = np.array(fresh.eigenvalues)
+            ok_ = np.allclose(rebuild(a2, evs2, conv, passive), T, atol=1e-6 * max(1.0, np.abs(evs2).max()))
+            ctx.seen(("reorder-history", o1, o2, conv, passive, ok_))
+            if not ok_:
+                ctx.fail_input("pipeline", case, "after euler_angles(), order = %r, euler_angles(): the angles %s do not reproduce the tensor from the re-ordered principal values" % (o2, np.round(a2, 6).tolist()), classify)
+        except Exception as e:
+            ctx.fail_input("pipeline", case, "euler_angles / re-order history raised %s: %s" % (type(e).__name__, str(e)[:120]), classify)
     if ctx.tier == "thorough":
         ctx.coqchk()
 
